@@ -457,6 +457,9 @@ func renderProgram(c Node) string {
 
 func renderCommand(cmd Node) string {
 	kind := nstr(cmd, "kind")
+	if kind == "setmatches" {
+		return "set " + nstr(cmd, "name") + " to matches " + renderCommand(nnode(cmd, "cmd"))
+	}
 	s := kind + " " + renderAmount(nnode(cmd, "amt")) + " " + renderSeq(nlist(cmd, "body"))
 	if kind == "replace" {
 		var ws []string
